@@ -10,7 +10,9 @@ import (
 	"sync/atomic"
 	"time"
 
+	"github.com/golang/protobuf/proto"
 	"github.com/vx-labs/wasp/v4/wasp"
+	"github.com/vx-labs/wasp/v4/wasp/api"
 )
 
 // ErrInconclusive is returned when quiescence was not reached within the wall-clock
@@ -396,4 +398,57 @@ func SortedSessions(n *Node) []string {
 	}
 	sort.Strings(out)
 	return out
+}
+
+// SnapshotDiff decodes the full-state snapshot of every live node and compares them entry by
+// entry, removals and every field included (will topic, retain flag, stamps). Nodes that have
+// received the same updates hold the same records; a record that one node altered in place
+// after announcing it shows here and nowhere else. "" = all equal.
+func (cl *Cluster) SnapshotDiff() string {
+	type view map[string]string
+	var names []string
+	var views []view
+	for _, n := range cl.Nodes {
+		if n.Down {
+			continue
+		}
+		ev := &api.StateBroadcastEvent{}
+		if err := proto.Unmarshal(n.State.Distributor().LocalState(false), ev); err != nil {
+			return fmt.Sprintf("node %s: snapshot does not decode: %v", n.Name, err)
+		}
+		v := view{}
+		for _, x := range ev.SessionMetadatas {
+			v["session "+x.SessionID] = proto.CompactTextString(x)
+		}
+		for _, x := range ev.Subscriptions {
+			v[fmt.Sprintf("subscription %s|%s", x.Pattern, x.SessionID)] = proto.CompactTextString(x)
+		}
+		for _, x := range ev.RetainedMessages {
+			if x.Publish != nil {
+				v[fmt.Sprintf("retained %s", x.Publish.Topic)] = proto.CompactTextString(x)
+			}
+		}
+		names = append(names, n.Name)
+		views = append(views, v)
+	}
+	for i := 1; i < len(views); i++ {
+		keys := map[string]bool{}
+		for k := range views[0] {
+			keys[k] = true
+		}
+		for k := range views[i] {
+			keys[k] = true
+		}
+		var ks []string
+		for k := range keys {
+			ks = append(ks, k)
+		}
+		sort.Strings(ks)
+		for _, k := range ks {
+			if views[0][k] != views[i][k] {
+				return fmt.Sprintf("record %q: node %s holds {%s}, node %s holds {%s}", k, names[0], views[0][k], names[i], views[i][k])
+			}
+		}
+	}
+	return ""
 }
